@@ -155,7 +155,7 @@ def storable(v):
     """(kind, z3 term|None) of a value that can be stored in a field / list / ghost slot"""
     if isinstance(v, VNone):
         return 'none', None
-    if isinstance(v, (VInt, VBool, VReal, VStr, VBytes, VRef, VVer, VObj, VList, VPair)):
+    if isinstance(v, (VInt, VBool, VReal, VStr, VBytes, VRef, VVer, VObj, VList, VPair, VExcVal)):
         return v.kind, v.t
     if isinstance(v, VTuple):
         if len(v.items) == 2:
@@ -204,7 +204,7 @@ def mk_value(kind, term, cls=None):
     if kind in ('pair_si', 'pair_ib'):
         return VPair(term, kind)
     if kind == 'exc':
-        return VObj(term)
+        return VExcVal(term)
     if kind == 'func':
         return VFunc('cb', 'callable', t=term)
     raise Unsupported('mk_value ' + kind)
